@@ -13,6 +13,24 @@ namespace SD
 
 variable {χ κ : Type}
 
+theorem append_cons_inj_left {α : Type} {a : α} {l1 l2 r1 r2 : List α} (h1 : a ∉ l1) (h2 : a ∉ l2)
+    (e : l1 ++ a :: r1 = l2 ++ a :: r2) : l1 = l2 := by
+  induction l1 generalizing l2 with
+  | nil =>
+    cases l2 with
+    | nil => rfl
+    | cons b l2 =>
+      simp only [List.nil_append, List.cons_append, List.cons.injEq] at e
+      exact absurd (by rw [e.1]; exact List.mem_cons_self) h2
+  | cons b l1 ih =>
+    cases l2 with
+    | nil =>
+      simp only [List.nil_append, List.cons_append, List.cons.injEq] at e
+      exact absurd (by rw [← e.1]; exact List.mem_cons_self) h1
+    | cons c l2 =>
+      simp only [List.cons_append, List.cons.injEq] at e
+      rw [e.1, ih (fun h => h1 (List.mem_cons_of_mem _ h)) (fun h => h2 (List.mem_cons_of_mem _ h)) e.2]
+
 /-! ## link view of the array -/
 
 /-- `(left, right)` of item `i` -/
@@ -384,6 +402,45 @@ theorem insert_eq [LinearOrder κ] (s : State χ κ) (new : Item χ κ) (hint : 
     cases s.dual <;> rfl
   · simp only [insert, hf, hrit, hl]
     cases s.dual <;> rfl
+
+theorem Rep.split_facts {tr : Array (Item χ κ)} {first : Option Nat} {pre' post : List Nat}
+    {l r : Nat} (h : Rep tr first (pre' ++ l :: r :: post)) :
+    l < tr.size ∧ r < tr.size ∧ l ≠ r := by
+  refine ⟨h.mem_iff.1 (by simp), h.mem_iff.1 (by simp), ?_⟩
+  have hnd := h.nodup
+  rw [List.nodup_append] at hnd
+  have h2 := hnd.2.1
+  rw [List.nodup_cons] at h2
+  intro e
+  exact h2.1 (by rw [e]; simp)
+
+section insq
+variable [LinearOrder κ]
+
+omit [LinearOrder χ] in
+theorem insQ_sorted (m : Option Nat) (flag : Bool) (k : κ) (ni : Nat) (kr : κ) (r : Nat)
+    {q : List (κ × Nat)} (h : QSorted q) : QSorted (insQ m flag k ni kr r q) := by
+  unfold insQ
+  cases flag
+  · exact qinsert_sorted m k ni h
+  · exact qinsert_sorted m kr r (qinsert_sorted m k ni h)
+
+omit [LinearOrder χ] in
+theorem mem_insQ {m : Option Nat} {flag : Bool} {k : κ} {ni : Nat} {kr : κ} {r : Nat}
+    {q : List (κ × Nat)} {e : κ × Nat} (h : e ∈ insQ m flag k ni kr r q) :
+    e = (k, ni) ∨ e = (kr, r) ∨ e ∈ q := by
+  unfold insQ at h
+  cases flag
+  · rcases mem_qinsert h with h | h
+    · exact Or.inl h
+    · exact Or.inr (Or.inr h)
+  · rcases mem_qinsert h with h | h
+    · exact Or.inr (Or.inl h)
+    · rcases mem_qinsert h with h | h
+      · exact Or.inl h
+      · exact Or.inr (Or.inr h)
+
+end insq
 
 /-! ## `find` -/
 
@@ -872,7 +929,114 @@ theorem popCurrent_spec {s : State χ κ} {t : List Nat} (h : Rep s.trials s.fir
     · rw [selq_setq]; exact hq'
     · rw [selq_setq]
 
+omit [LinearOrder χ] in
+theorem popMaxGlobal_cons {s : State χ κ} {k : κ} {i : Nat} {t : List (κ × Nat)}
+    (hq : s.gq = (k, i) :: t) : popMaxGlobal leB s = .ok ({ s with gq := t }, i, k) := by
+  simp [popMaxGlobal, hq]
+
+omit [LinearOrder χ] in
+theorem popMaxGlobal_nil {s : State χ κ} {k : κ} {i : Nat} {t : List (κ × Nat)}
+    (hq : s.gq = []) (hq' : (refill leB s).gq = (k, i) :: t) :
+    popMaxGlobal leB s = .ok ({ refill leB s with gq := t }, i, k) := by
+  simp [popMaxGlobal, hq, hq']
+
+/-- Specification of the base-class request `popMaxGlobal`: the head of the queue is removed and
+returned; an empty queue is refilled first, and then the result is a global maximum. -/
+theorem popMaxGlobal_spec {s : State χ κ} {t : List Nat} (h : Rep s.trials s.first t)
+    (hm : s.maxlen ≠ some 0) :
+    ∃ s' i k, popMaxGlobal leB s = .ok (s', i, k) ∧
+      ((s.gq = (k, i) :: s'.gq ∧ s' = { s with gq := s'.gq }) ∨
+       (s.gq = [] ∧ (refill leB s).gq = (k, i) :: s'.gq ∧ s' = { refill leB s with gq := s'.gq } ∧
+          IsCur true s.trials (k, i) ∧
+          ∀ (j : Nat) (jt : Item χ κ), s.trials[j]? = some jt → jt.globalR ≤ k)) := by
+  cases hq : s.gq with
+  | cons e q =>
+    obtain ⟨k, i⟩ := e
+    exact ⟨_, i, k, popMaxGlobal_cons hq, Or.inl ⟨rfl, rfl⟩⟩
+  | nil =>
+    obtain ⟨k, i, rest, hq', hcur, hmax⟩ := refill_head h true (by simp) hm
+    exact ⟨_, i, k, popMaxGlobal_nil hq hq', Or.inr ⟨rfl, hq', rfl, hcur, hmax⟩⟩
+
 end pops
+
+/-! ## coordinates -/
+
+/-- the stored coordinates in insertion order -/
+def storedXs (tr : Array (Item χ κ)) : List χ := (List.range tr.size).filterMap (xOf tr)
+
+/-- the coordinates along the id list `t` -/
+def coordsOf (tr : Array (Item χ κ)) (t : List Nat) : List χ := t.filterMap (xOf tr)
+
+omit [LinearOrder χ] in
+theorem range_filterMap_getElem? {α : Type} (l : List α) :
+    (List.range l.length).filterMap (fun i => l[i]?) = l := by
+  induction l with
+  | nil => rfl
+  | cons a l ih =>
+    rw [List.length_cons, List.range_succ_eq_map, List.filterMap_cons]
+    simp only [List.getElem?_cons_zero, List.filterMap_map]
+    congr 1
+
+omit [LinearOrder χ] in
+theorem filterMap_congr' {α β : Type} {f g : α → Option β} {l : List α}
+    (h : ∀ a ∈ l, f a = g a) : l.filterMap f = l.filterMap g := by
+  induction l with
+  | nil => rfl
+  | cons a l ih =>
+    rw [List.filterMap_cons, List.filterMap_cons, h a List.mem_cons_self,
+      ih (fun b hb => h b (List.mem_cons_of_mem _ hb))]
+
+omit [LinearOrder χ] in
+theorem storedXs_eq (tr : Array (Item χ κ)) : storedXs tr = tr.toList.map (·.x) := by
+  unfold storedXs xOf
+  have : (fun i : Nat => Option.map (fun it : Item χ κ => it.x) tr[i]?) =
+      fun i => (tr.toList[i]?).map (fun it : Item χ κ => it.x) := by
+    funext i; rw [Array.getElem?_toList]
+  rw [this, ← List.map_filterMap, ← Array.length_toList, range_filterMap_getElem?]
+
+omit [LinearOrder χ] in
+theorem storedXs_insTrials (tr : Array (Item χ κ)) (new : Item χ κ) (l r : Nat)
+    (hl : l < tr.size) (hr : r < tr.size) (hlr : l ≠ r) :
+    storedXs (insTrials tr new l r) = storedXs tr ++ [new.x] := by
+  unfold storedXs
+  rw [insTrials_size, List.range_succ, List.filterMap_append]
+  congr 1
+  · apply filterMap_congr'
+    intro i hi
+    rw [insTrials_xOf tr new l r i hl hr hlr, if_neg (by have := List.mem_range.1 hi; omega)]
+  · simp [insTrials_xOf tr new l r _ hl hr hlr]
+
+omit [LinearOrder χ] in
+theorem storedXs_of_view_eq {tr tr' : Array (Item χ κ)} (hsz : tr'.size = tr.size)
+    (hx : ∀ a, xOf tr' a = xOf tr a) : storedXs tr' = storedXs tr := by
+  unfold storedXs
+  rw [hsz]
+  exact filterMap_congr' (fun a _ => hx a)
+
+theorem Rep.coords_perm {tr : Array (Item χ κ)} {first : Option Nat} {t : List Nat}
+    (h : Rep tr first t) : (coordsOf tr t).Perm (storedXs tr) :=
+  h.perm.filterMap _
+
+theorem Rep.coords_sorted {tr : Array (Item χ κ)} {first : Option Nat} {t : List Nat}
+    (h : Rep tr first t) : (coordsOf tr t).Pairwise (· ≤ ·) := by
+  unfold coordsOf
+  rw [List.pairwise_filterMap]
+  refine List.Pairwise.imp ?_ h.sorted
+  intro a b hab xa hxa xb hxb
+  exact hab xa xb hxa hxb
+
+theorem Rep.coords_length {tr : Array (Item χ κ)} {first : Option Nat} {t : List Nat}
+    (h : Rep tr first t) : (coordsOf tr t).length = tr.size := by
+  rw [h.coords_perm.length_eq, storedXs_eq]
+  simp
+
+/-- distinct stored coordinates are strictly increasing along the list -/
+theorem Rep.coords_strict {tr : Array (Item χ κ)} {first : Option Nat} {t : List Nat}
+    (h : Rep tr first t) (hnd : (storedXs tr).Nodup) : (coordsOf tr t).Pairwise (· < ·) := by
+  have hnd' : (coordsOf tr t).Nodup := h.coords_perm.nodup_iff.2 hnd
+  have := List.Pairwise.and h.coords_sorted hnd'
+  exact this.imp (fun ⟨h1, h2⟩ => lt_of_le_of_ne h1 h2)
 
 end
 end SD
+
